@@ -1,6 +1,7 @@
 import RlibModel.Lemmas.IterMasks
 import RlibModel.Lemmas.IterPermSpec
 import RlibModel.Lemmas.IterNeigh
+import RlibModel.Lemmas.IterProto
 /-!
 # C15 — combinatorial iterators enumerate exactly the specified set, once each, in order
 
@@ -333,5 +334,107 @@ theorem neighbours_nodup (offs : List (Int × Int)) (hoffs : SmallOffsets offs) 
   · cases hc
 
 example : offsets4.Nodup ∧ offsets4d.Nodup ∧ offsets8.Nodup := by decide
+
+/-! ## the iterator protocol: every provided method of `Iterator`, also after partial consumption
+
+The iterators are observed not only through `collect()`: `Model/IterProto.lean` models std's default bodies of the
+provided methods as loops over `next` (`stdSem`) and states what they mean on the sequence still to come
+(`specSem`); scripts of such calls are run by the driver on the model's sequence with `stdSem` (`M`) and on the
+specification's sequence with `specSem` (`S`). -/
+
+/-- std's default bodies of `nth`, `by_ref().take(k)`, `find`, `position`, `any`, `all`, `count`, `last`,
+    `fold`/`for_each`/`collect`, `reduce`, `min`/`max`, `min_by_key`/`max_by_key`/`min_by`/`max_by` compute what the
+    methods mean: `l[n]?` and `drop (n+1)`; `take k` and `drop k`; first match and what follows it; `length`;
+    `getLast?`; the sequence itself; the **first** element `≤` all others; the **last** element `≥` all others
+    (for the element order and for keys with ties). -/
+theorem provided_methods_spec : stdSem = specSem := stdSem_eq_specSem
+
+example : stdNth 1 [[13], [12], [9], [8]] = (some [12], some [[9], [8]]) := by decide
+example : stdNth 4 [[13], [12], [9], [8]] = (none, none) := by decide
+example : stdCount [[13], [12], [9], [8]] = 4 ∧ stdLast [[13], [12]] = some [12] := by decide
+example : stdMinBy (leKey .par) [[3], [2], [5], [4]] = some [2] ∧ stdMaxBy (leKey .par) [[3], [2], [5], [4]] = some [5] := by
+  decide
+example : specMinBy (leKey .par) [[3], [2], [5], [4]] = some [2] ∧ specMaxBy (leKey .par) [[3], [2], [5], [4]] = some [5] := by
+  decide
+example : stdMaxBy leElem [[-1], [-2], [127]] = some [127] := by decide
+
+/-- Hence a script of calls answers the same on the model side and on the specification side. -/
+theorem script_model_eq_spec (k : Kind) (ops : List Op) (st : Option (List Elem)) :
+    runScript stdSem k ops st = runScript specSem k ops st := by
+  rw [provided_methods_spec]
+
+example : (runScript stdSem ⟨fun _ => "e", fun _ => "c", none⟩ [.next, .hint, .count, .next] (some [[13], [12], [9]])).length = 4 := by
+  decide
+
+/-- `min` / `min_by_key`: the answer is an element of the sequence that is `≤` every element, and no element before
+    it is (for any total preorder `le`); `max` dually with the **last** such element. -/
+theorem minBy_maxBy_spec (le : Elem → Elem → Bool) (h : TotalPre le) (l : List Elem) (m : Elem) :
+    (stdMinBy le l = some m ↔
+      ∃ pre post, l = pre ++ m :: post ∧ (∀ y ∈ l, le m y = true) ∧ ∀ a ∈ pre, ∃ y ∈ l, le a y = false) ∧
+    (stdMaxBy le l = some m ↔
+      ∃ pre post, l = pre ++ m :: post ∧ (∀ y ∈ l, le y m = true) ∧ ∀ a ∈ post, ∃ y ∈ l, le y a = false) := by
+  constructor
+  · rw [stdMinBy_eq h, specMinBy, List.find?_eq_some_iff_append]
+    constructor
+    · rintro ⟨hm, pre, post, e, hpre⟩
+      refine ⟨pre, post, e, List.all_eq_true.mp hm, fun a ha => ?_⟩
+      have := hpre a ha
+      simp only [Bool.not_eq_eq_eq_not, Bool.not_true] at this
+      rw [List.all_eq_false] at this
+      obtain ⟨y, hy, hay⟩ := this
+      exact ⟨y, hy, by simpa using hay⟩
+    · rintro ⟨pre, post, e, hm, hpre⟩
+      refine ⟨List.all_eq_true.mpr hm, pre, post, e, fun a ha => ?_⟩
+      obtain ⟨y, hy, hay⟩ := hpre a ha
+      simp only [Bool.not_eq_eq_eq_not, Bool.not_true]
+      rw [List.all_eq_false]
+      exact ⟨y, hy, by rw [hay]; simp⟩
+  · rw [stdMaxBy_eq h, specMaxBy, List.find?_eq_some_iff_append]
+    constructor
+    · rintro ⟨hm, as, bs, e, has⟩
+      have e' : l = bs.reverse ++ m :: as.reverse := by
+        have := congrArg List.reverse e
+        simpa using this
+      refine ⟨bs.reverse, as.reverse, e', List.all_eq_true.mp hm, fun a ha => ?_⟩
+      have := has a (List.mem_reverse.mp ha)
+      simp only [Bool.not_eq_eq_eq_not, Bool.not_true] at this
+      rw [List.all_eq_false] at this
+      obtain ⟨y, hy, hay⟩ := this
+      exact ⟨y, hy, by simpa using hay⟩
+    · rintro ⟨pre, post, e, hm, hpost⟩
+      refine ⟨List.all_eq_true.mpr hm, post.reverse, pre.reverse, by rw [e]; simp, fun a ha => ?_⟩
+      obtain ⟨y, hy, hay⟩ := hpost a (List.mem_reverse.mp ha)
+      simp only [Bool.not_eq_eq_eq_not, Bool.not_true]
+      rw [List.all_eq_false]
+      exact ⟨y, hy, by rw [hay]; simp⟩
+
+example : TotalPre leElem ∧ TotalPre (leKey .par) ∧ TotalPre (leKey .c0) :=
+  ⟨totalPre_leElem, totalPre_leKey _, totalPre_leKey _⟩
+
+/-- `sum()` / `product()` with overflow checks: when no partial result leaves the type, the answer is the
+    mathematical sum / product of the values. -/
+theorem sum_product_value (t : IntTy) (l : List Elem) (v : Int) :
+    (sumChecked t l = .ok v → v = (l.map (·.headD 0)).foldl (· + ·) 0) ∧
+    (productChecked t l = .ok v → v = (l.map (·.headD 0)).foldl (· * ·) 1) :=
+  ⟨foldChecked_ok t _ _ _ _, foldChecked_ok t _ _ _ _⟩
+
+example : sumChecked ⟨false, 8⟩ [[5], [4], [1], [0]] = .ok 10 ∧ sumChecked ⟨false, 8⟩ [[255], [254]] = .error .overflow ∧
+    sumChecked ⟨true, 8⟩ [[-1], [-2], [-3]] = .ok (-6) := ⟨rfl, rfl, rfl⟩
+
+/-! ## long sequences with few arrangements -/
+
+/-- The direct enumeration of the distinct arrangements of a multiset (the driver's `S` for `iter_permutations` on
+    sequences longer than 9, where the `n!` orderings of `specPermutations` cannot be built) is the by-definition one. -/
+theorem specPermutationsFast_eq (d : List Int) : specPermutationsFast d = specPermutations d :=
+  specPermutationsFast_eq' d
+
+/-- … so it is what `iter_permutations(d).collect()` returns. -/
+theorem iterPermutations_eq_specFast (d : List Int) : iterPermutations d = .ok (specPermutationsFast d) := by
+  rw [specPermutationsFast_eq, iterPermutations_eq_spec]
+
+example : arrangements 4 [0, 0, 1, 1] = [[0, 0, 1, 1], [0, 1, 0, 1], [0, 1, 1, 0], [1, 0, 0, 1], [1, 0, 1, 0], [1, 1, 0, 0]] := by
+  decide
+example : [1, 0, 1, 0] ∈ specPermutationsFast [1, 0, 0, 1] ∧ (specPermutationsFast [1, 0, 0, 1]).Pairwise (· < ·) :=
+  ⟨((specPermutationsFast_char _).2 _).mpr (by decide), (specPermutationsFast_char _).1⟩
 
 end Rlib.C15
